@@ -82,7 +82,22 @@ func onceLiteral(fn *ssa.Function, onceField *types.Var) (*ssa.Function, ssa.Cal
 		}
 		switch a := kit.Strip(args[1]).(type) {
 		case *ssa.MakeClosure:
-			return a.Fn.(*ssa.Function), c
+			f := a.Fn.(*ssa.Function)
+			if f.Synthetic != "" {
+				// once.Do(x.method): the bound-method wrapper just calls the method
+				var real *ssa.Function
+				kit.Instrs(f, func(in ssa.Instruction) {
+					if ci, ok := in.(ssa.CallInstruction); ok {
+						if cal := kit.StaticCallee(ci); cal != nil && cal.Blocks != nil {
+							real = cal
+						}
+					}
+				})
+				if real != nil {
+					return real, c
+				}
+			}
+			return f, c
 		case *ssa.Function:
 			return a, c
 		}
@@ -601,4 +616,19 @@ func resultFlowsFrom(v ssa.Value, pred func(ssa.Value) bool, depth int) bool {
 		}
 	})
 	return good && any
+}
+
+// connWrites returns the places in fn that put bytes on the region client's connection: calls of the
+// write helper, gather writes (net.Buffers.WriteTo) and direct Write calls on the conn field.
+func connWrites(p *kit.Prog, fn *ssa.Function) []ssa.CallInstruction {
+	var out []ssa.CallInstruction
+	out = append(out, kit.Calls(fn, kit.M("region", "*client", "write"))...)
+	out = append(out, kit.Calls(fn, "(*net.Buffers).WriteTo")...)
+	connF := p.Field("region", "client", "conn")
+	for _, w := range kit.Calls(fn, "(net.Conn).Write") {
+		if connF != nil && isLoadOfField(w.Common().Value, connF) {
+			out = append(out, w)
+		}
+	}
+	return out
 }
